@@ -1,7 +1,7 @@
 """C20 — compiled and interpreted execution agree (structural clauses)."""
 from . import scopes
 from ..core.report import DOMAIN_D
-from ..rules import eager, buffers, aabbtree, safediv, unpack, misc2
+from ..rules import eager, buffers, aabbtree, safediv, unpack, misc2, defined
 from .common import e1
 
 
@@ -18,6 +18,7 @@ def run(idx, rep, tier):
     eager.r_eager(idx, rep, it, floor=150, unknown_ceiling=30)
     buffers.r_frozen(idx, rep)
     buffers.r_guardstore(idx, rep, floor=3)
+    defined.r_defined(idx, rep, [m.name for m in idx.lib_modules()], floor=40, njit_only=True)      # UnboundLocalError interpreted vs a zero slot compiled
     buffers.r_boundedstore(idx, rep, floor=2)
     buffers.r_compact(idx, rep, floor=6)
     buffers.r_emptyfill(idx, rep, floor=6)
